@@ -34,7 +34,7 @@ import (
 )
 
 type hOp struct {
-	Kind   string `json:"op"`               // load | write | flip | key
+	Kind   string `json:"op"`               // load | write | flip | key | wipe
 	Buf    int    `json:"buf"`              // which seed array
 	Phrase string `json:"phrase,omitempty"` // load: SeedFromPhrase(&buf, phrase)
 	Bytes  string `json:"bytes,omitempty"`  // write: the caller overwrites the array (hex)
@@ -50,6 +50,8 @@ func (o hOp) String() string {
 		return fmt.Sprintf("buf%d = %s", o.Buf, o.Bytes)
 	case "flip":
 		return fmt.Sprintf("buf%d[%d] ^= 1", o.Buf, o.Byte)
+	case "wipe":
+		return fmt.Sprintf("wipe(the key last derived from buf%d)", o.Buf)
 	}
 	return fmt.Sprintf("KeyFromSeed(&buf%d, %d)", o.Buf, o.Index)
 }
@@ -91,6 +93,18 @@ func runHistory(ops []hOp, nbuf int) (res histResult) {
 			res.bad, res.detail = i, fmt.Sprintf(format, a...)
 		}
 	}
+	// every key the code returned, with the value it had at that moment: the caller owns it (and
+	// may wipe it); no later call may change it
+	type returned struct {
+		at   int
+		k    types.PrivateKey
+		want []byte
+	}
+	var rets []returned
+	last := make([]int, nbuf) // index into rets of the key last derived from each array, -1 if none or wiped
+	for i := range last {
+		last[i] = -1
+	}
 	var steps []string
 	for i, b := range bufs { // the arrays start zeroed: the model has to know that they hold equal contents
 		steps = append(steps, fmt.Sprintf("(HWrite %d [%d], 0)", i, cid(*b)))
@@ -107,6 +121,15 @@ func runHistory(ops []hOp, nbuf int) (res histResult) {
 			copy(b[:], raw)
 		case "flip":
 			b[o.Byte%32] ^= 1
+		case "wipe": // the caller zeroes a key it was given (usual hygiene); not a call of the code under test
+			if j := last[o.Buf]; j >= 0 {
+				for x := range rets[j].k {
+					rets[j].k[x] = 0
+				}
+				rets[j].want = nil
+				last[o.Buf] = -1
+			}
+			continue
 		case "key":
 			before := *b
 			var k types.PrivateKey
@@ -124,6 +147,8 @@ func runHistory(ops []hOp, nbuf int) (res histResult) {
 			if *b != before {
 				fail(n, "%s changed the seed array from %x to %x", o, before, *b)
 			}
+			rets = append(rets, returned{n, k, append([]byte(nil), k...)})
+			last[o.Buf] = len(rets) - 1
 			if _, ok := keyID[string(k)]; !ok {
 				keyID[string(k)] = len(keyID) + 1
 			}
@@ -131,6 +156,11 @@ func runHistory(ops []hOp, nbuf int) (res histResult) {
 			continue
 		}
 		steps = append(steps, fmt.Sprintf("(HWrite %d [%d], 0)", o.Buf, cid(*b)))
+	}
+	for _, rt := range rets { // judged at the end, with no call in between: results handed out earlier are still what they were
+		if rt.want != nil && !bytes.Equal(rt.k, rt.want) {
+			fail(len(ops)-1, "the key returned by call %d (%s) was %x when it was returned and is %x at the end of the history: a later call wrote into memory the caller owns", rt.at, ops[rt.at], rt.want[32:], []byte(rt.k[32:]))
+		}
 	}
 	res.coq = "CHist [" + strings.Join(steps, "; ") + "]"
 	return
@@ -231,8 +261,10 @@ func (g *histGen) random(r *rng.R) []hOp {
 	ops := []hOp{g.overwrite(r, 0)}
 	for n := 5 + r.Intn(20); n > 0; n-- {
 		b := r.Intn(nbuf)
-		if r.Intn(100) < 40 {
+		if x := r.Intn(100); x < 35 {
 			ops = append(ops, g.overwrite(r, b))
+		} else if x < 45 {
+			ops = append(ops, hOp{Kind: "wipe", Buf: b})
 		} else {
 			ops = append(ops, hOp{Kind: "key", Buf: b, Index: g.indices[r.Intn(nidx)]})
 		}
@@ -279,6 +311,9 @@ func (g *histGen) directed(r *rng.R) (hs [][]hOp) {
 		// the demo of the wallet: one array, several phrases in turn, one index
 		hs = append(hs, []hOp{{Kind: "load", Buf: 0, Phrase: A}, {Kind: "key", Buf: 0, Index: i}, {Kind: "load", Buf: 0, Phrase: B}, {Kind: "key", Buf: 0, Index: i},
 			{Kind: "load", Buf: 0, Phrase: C}, {Kind: "key", Buf: 0, Index: i}, {Kind: "load", Buf: 0, Phrase: A}, {Kind: "key", Buf: 0, Index: i}})
+		// the caller wipes the key it got and asks again, with and without other calls in between
+		hs = append(hs, []hOp{{Kind: "load", Buf: 0, Phrase: A}, {Kind: "key", Buf: 0, Index: i}, {Kind: "wipe", Buf: 0}, {Kind: "key", Buf: 0, Index: i}, {Kind: "key", Buf: 0, Index: i}})
+		hs = append(hs, []hOp{{Kind: "load", Buf: 0, Phrase: A}, {Kind: "load", Buf: 1, Phrase: A}, {Kind: "key", Buf: 0, Index: i}, {Kind: "wipe", Buf: 0}, {Kind: "key", Buf: 1, Index: i}, {Kind: "key", Buf: 0, Index: j}, {Kind: "key", Buf: 0, Index: i}})
 		// a failed load leaves the array as it is: still the old key
 		hs = append(hs, []hOp{{Kind: "load", Buf: 0, Phrase: A}, {Kind: "key", Buf: 0, Index: i}, {Kind: "load", Buf: 0, Phrase: g.bad}, {Kind: "key", Buf: 0, Index: i}})
 	}
